@@ -408,10 +408,11 @@ def commitStale (h : Hist) (v : Nat) (op : Op) : Hist × Res :=
           | .error .incompatible => (h, .err "conflict_incompatible")
           | .ok T' => ({ ms := buildOn L T' :: h.ms, feet := T'.foot :: h.feet }, .ok)
 
-/-- delete / update / full-schema merge_insert commit through the rebase path whatever the handle (a fresh handle reads
-    the latest version: nothing to rebase over); the other operations are the C17 step -/
+/-- append / delete / update / full-schema merge_insert commit through the rebase path whatever the handle (a fresh handle
+    reads the latest version: nothing to rebase over); the other operations are the C17 step -/
 def viaCommit (h : Hist) (op : Op) : Bool :=
   match h.ms, op with
+  | _ :: _, .append _ _ => true
   | _ :: _, .delete _ => true
   | _ :: _, .update _ _ => true
   | m :: _, .upsert rows => (rows.head?.map List.length) == some m.k
